@@ -21,20 +21,27 @@ PROPS = ["Isolation", "Restored"]
 
 def run(rep, work, tier, seed):
     if tier == "quick":
-        mc = dict(NTasks=2, Types=["A", "B"], Vals=[1, 2], MaxDepth=2, MaxOps=5, SupKind="tiny", Bug="none")
-        conf = dict(NTasks=2, Types=["A", "B"], Vals=[1, 2], MaxDepth=2, MaxOps=4, SupKind="tiny", Bug="none")
+        mc = dict(NTasks=2, Types=["A", "B"], Vals=[1, 2], MaxDepth=2, MaxOps=5, SupKind="tiny", Prep=False, Bug="none")
+        conf = dict(NTasks=2, Types=["A", "B"], Vals=[1, 2], MaxDepth=2, MaxOps=4, SupKind="tiny", Prep=False, Bug="none")
     else:
-        mc = dict(NTasks=3, Types=["A", "B"], Vals=[1, 2], MaxDepth=2, MaxOps=5, SupKind="tiny", Bug="none")
-        conf = dict(NTasks=3, Types=["A", "B"], Vals=[1, 2], MaxDepth=2, MaxOps=4, SupKind="tiny", Bug="none")
+        mc = dict(NTasks=3, Types=["A", "B"], Vals=[1, 2], MaxDepth=2, MaxOps=5, SupKind="tiny", Prep=False, Bug="none")
+        conf = dict(NTasks=3, Types=["A", "B"], Vals=[1, 2], MaxDepth=2, MaxOps=4, SupKind="tiny", Prep=False, Bug="none")
     rep.extra["constants"] = dict(model=mc, conformance=conf)
     leg_m(rep, work, SPEC, f"mc_{tier}", cfg_text(mc, spec="Spec", invariants=INVS, properties=PROPS),
           expect_actions=["Enter", "Leave", "Start", "End", "Try", "Raise"], timeout=3000)
     if tier == "thorough":
-        small = dict(NTasks=2, Types=["A", "B"], Vals=[1, 2], MaxDepth=2, MaxOps=3, SupKind="tiny")
+        small = dict(NTasks=2, Types=["A", "B"], Vals=[1, 2], MaxDepth=2, MaxOps=3, SupKind="tiny", Prep=False)
         leg_mutant(rep, work, SPEC, "mutant_leak_group",
                    cfg_text(dict(small, Bug="leak_group"), spec="Spec", invariants=INVS, properties=PROPS),
                    ["LexicalLookup", "Isolation", "TypeOK", "ScopeIdsFresh"]) if False else None
     leg_r(rep, work, SPEC, f"conf_{tier}", cfg_text(conf, invariants=INVS), lambda: ScopesDriver(("A", "B")), world=True)
+    # a block object prepared by one task and entered by another (Prepare / EnterPrepared / ReEnter): the entering task
+    # sees its own state plus what the block supplies, never the state of the place where the object was made
+    prep = dict(NTasks=2, Types=["A", "B"], Vals=[1, 2], MaxDepth=1 if tier == "quick" else 2, MaxOps=4 if tier == "quick" else 5, SupKind="tiny",
+                Prep=True, Bug="none")
+    leg_m(rep, work, SPEC, f"prep_mc_{tier}", cfg_text(prep, spec="Spec", invariants=INVS, properties=PROPS),
+          expect_actions=["Prepare", "EnterPrepared", "ReEnter", "Start"], timeout=3000)
+    leg_r(rep, work, SPEC, f"prep_conf_{tier}", cfg_text(prep, invariants=INVS), lambda: ScopesDriver(("A", "B")), world=True)
     # leg T: random programs beyond the exhaustive bound (depth 6, ~28 operations, 4 task(s)) validated by a trace
     # module generated from Scopes.tla
     rnd = random.Random(seed * 13 + 4)
